@@ -715,10 +715,13 @@ class TopLevelVisitor(ast.NodeVisitor):
             # Decorators can throw off the line the function is declared on
             linex = node.lineno - 1
             pattern = r'\s*(async\s+)?def\s*' + node.name
-            # I think this is actually robust
-            while not re.match(pattern, self.sourcelines[linex]):
+            # The name may be spelled differently in the source (identifiers
+            # are NFKC normalized) or stand on a continuation line: never
+            # search beyond the end of the file.
+            nlines = len(self.sourcelines)
+            while linex < nlines and not re.match(pattern, self.sourcelines[linex]):
                 linex += 1
-            lineno = linex + 1
+            lineno = (linex + 1) if linex < nlines else node.lineno
         else:
             lineno = node.lineno
         return lineno
